@@ -20,4 +20,4 @@ Deliver, in {wt}/out/:
   patch.diff   — `git -C {wt}/repo diff` of your change (source files only, no tests)
   demo.py      — a small self-contained program (run as `cd {wt}/repo && /venv/bin/python {wt}/out/demo.py`) that exits 0 on the UNCHANGED library and exits non-zero (with a clear message) on the changed one, demonstrating the property violation through the library's public behaviour (fake links / mocks are fine; no hardware, no network, no real sleeping beyond a second)
   meta.json    — {{"property": "{pid}", "what_breaks": "...", "needs_to_manifest": "...", "files_changed": [...], "tests_pass": true}}
-Verify yourself: tests pass with the patch; demo passes without the patch (use `git stash` or `git apply -R`) and fails with it. When done, leave the patch APPLIED in the worktree? No — revert it (`git -C {wt}/repo checkout -- .`) so the worktree is pristine, keep only {wt}/out/. Reply with a 5-line summary of the change and how it manifests.""")
+Verify yourself: tests pass with the patch; demo passes without the patch (use `git apply -R patch.diff` and `git apply patch.diff`; do NOT use `git stash`: the stash is shared by all worktrees of the repository and other testers work in parallel) and fails with it. When done, leave the patch APPLIED in the worktree? No — revert it (`git -C {wt}/repo checkout -- .`) so the worktree is pristine, keep only {wt}/out/. Reply with a 5-line summary of the change and how it manifests.""")
